@@ -328,13 +328,27 @@ def rule_7(ctx):
         got = wbl.value('Sheet1!' + a)
         ctx.expect(S.same(got, _as_value(w)), anchor, f'ranges written in lower case: {lower[a]}',
                    f'{a} = {lower[a]} (A1 = TRUE, A2 = FALSE, A3 = 1) evaluates to {got!r}, expected {w!r}')
+    # long runs of zeros / FALSE in a range are values, not emptiness: the one TRUE behind them counts
+    for filler, hit in ((0, 1), (False, True), (0.0, -2.5)):
+        row = {}
+        for i in range(1, 131):
+            col = (chr(64 + (i - 1) // 26) if i > 26 else '') + chr(65 + (i - 1) % 26)
+            row[f'{col}1'] = hit if i == 102 else filler
+        row.update({'A3': '=OR(A1:DZ1)', 'A4': '=IF(OR(A1:DZ1),"some","none")', 'A5': '=NOT(OR(A1:DZ1))', 'A6': '=AND(A1:DZ1)'})
+        wbz = W.Workbook(ctx, row)
+        for a, w in (('A3', True), ('A4', 'some'), ('A5', False), ('A6', False)):
+            got = wbz.value('Sheet1!' + a)
+            ctx.expect(S.same(got, _as_value(w)), anchor, f'130 cells of {filler!r} with one {hit!r} at position 102: {row[a]}',
+                       f'{row[a]} over A1:DZ1 = {filler!r} everywhere except CX1 = {hit!r} evaluates to {got!r}, expected {w!r}')
     steps = [('eval', 'Z1'), ('eval', 'Z3'), ('set', 'A2', 1), ('eval', 'Z1'), ('eval', 'Z3'), ('eval', 'L2'), ('set', 'A3', 0), ('eval', 'Z1'),
              ('eval', 'Z3'), ('eval', 'T2'), ('eval', 'T5'), ('set', 'A1', -1), ('eval', 'L1'), ('eval', 'Z2'), ('eval', 'L5'), ('set', 'A2', 0),
-             ('eval', 'Z3'), ('eval', 'Z2'), ('eval', 'L6')]
+             ('eval', 'Z3'), ('eval', 'Z2'), ('eval', 'L6'),
+             # an input made blank again through the API
+             ('set', 'A1', None), ('eval', 'L5'), ('eval', 'B1'), ('eval', 'Z2'), ('set', 'A3', None), ('eval', 'B3'), ('eval', 'T5'), ('set', 'A1', 3), ('eval', 'L5')]
     hist_cells = {k: v for k, v in LOGIC_CELLS.items() if k[0] in 'AB' or k in ('Z1', 'Z2', 'Z3', 'L1', 'L2', 'L5', 'L6', 'T2', 'T5')}
     S.check_history(ctx, anchor, 'logic history', hist_cells, steps, cache={}, check_stored=False,
                     why='AND / OR / IF over ranges and cells see the current values of their precedents.')
-    ctx.floor(80, 'logic cells + history steps')
+    ctx.floor(100, 'logic cells + history steps')
 
 
 RULES = [
